@@ -1,7 +1,7 @@
 import BigtreeModel.Render
 import BigtreeModel.RenderStyles
 import BigtreeProofs.Lemmas.RenderV
-import BigtreeProofs.Lemmas.RenderRT4
+import BigtreeProofs.Lemmas.RenderRT5
 import BigtreeProofs.Lemmas.RenderMermaid
 import BigtreeProofs.Lemmas.RenderH
 import BigtreeProofs.Lemmas.RenderHNodes
@@ -80,9 +80,23 @@ theorem print_roundtrip_text (st : Style) (md : Nat) (t : Tree) (hst : styleOk s
 example : '\n' ∉ exSt.stem ++ exSt.branch ++ exSt.stemFinal ∧ (∀ n ∈ namesT exT, nameOk exSt n = true ∧ '\n' ∉ n) ∧
     joinNl ((yieldTree exSt 2 exT).map Line.text) = "a\n|-- b\n`-- c".toList := by decide
 
+/-- `str_to_tree(text)` WITHOUT a prefix list (names are found by dropping every non-ASCII character)
+reads the tree back as well, for styles whose glyph characters are all non-ASCII or blank and
+names that are pure ASCII -/
+theorem print_roundtrip_noprefix (st : Style) (md : Nat) (t : Tree) (hst : styleOk st = true)
+    (hab : asciiBlind st = true)
+    (hnames : ∀ n ∈ namesT t, nameOk st n = true ∧ asciiName n = true) (hsib : sibDistinct t = true) :
+    strToTreeLines [] ((yieldTree st md t).map Line.text) = some (erase (prune md t)) :=
+  strToTree_noPrefix hst hab md t hnames hsib
+
+example : let st : Style := ⟨"\u2502   ".toList, "\u251c\u2500\u2500 ".toList, "\u2514\u2500\u2500 ".toList⟩
+    ("const", st) ∈ builtinStyles ∧ styleOk st = true ∧ asciiBlind st = true ∧
+    (∀ n ∈ namesT exT, nameOk st n = true ∧ asciiName n = true) := by decide
+
 /-- the side conditions hold for every entry of the generated `PRINT_STYLES` table -/
 theorem builtin_styles_ok :
-    ∀ e ∈ builtinStyles, styleOk e.2 = true ∧ '\n' ∉ e.2.stem ++ e.2.branch ++ e.2.stemFinal := by decide
+    ∀ e ∈ builtinStyles, styleOk e.2 = true ∧ '\n' ∉ e.2.stem ++ e.2.branch ++ e.2.stemFinal ∧
+      (e.1 ∉ ["ansi", "ascii"] → asciiBlind e.2 = true) := by decide
 
 example : builtinStyles.length = 6 := by decide
 
